@@ -617,9 +617,9 @@ def run_prop(prop, tier, seed, proof, sigfilter=None):
     known_hits = {}
     cases = list(gen_cases(prop, tier, seed))
     with ThreadPoolExecutor(max_workers=common.NCPU) as ex:
-        for name, lines, viol, div, c, out in ex.map(one_case, cases):
+        for name, lines, viol, div, c, out in common.bounded_map(ex, one_case, cases):
             if stop:
-                continue
+                break       # enough evidence of failure: the cases not yet started are never run
             res.evaluations += 1
             for k, n in c.items():
                 cov[k] = cov.get(k, 0) + n
@@ -692,7 +692,7 @@ def search_prop(prop, tier, seed, proof):
     for s in range(seed + 900, seed + 903):
         cases = list(gen_cases(prop, "quick", s))[:600]
         with ThreadPoolExecutor(max_workers=common.NCPU) as ex:
-            for name, lines, viol, _, _, _ in ex.map(lambda a: one_case_impl(a), cases):
+            for name, lines, viol, _, _, _ in common.bounded_map(ex, lambda a: one_case_impl(a), cases):
                 res.evaluations += 1
                 if viol and not res.impl_violations:
                     sig0 = viol[0][0]
